@@ -280,7 +280,7 @@ func TestVerifC01DubboFidelity(t *testing.T) {
 	p.End(complete,
 		fmt.Sprintf("dirs %v; requests: modes {any listener, ingress_dubbo} x path length %v x attachment shapes (none,1,2,300 pairs x key/value %v, +one 65536-byte value) x binary-argument length %v x id %v; responses/events: payload length %v x id; x newid(quick: complement; thorough: all) x {buffer left alone, overwritten}; + {0,1,mid,max} of status and serialization id; + zero/max frames; + 256 one-byte bodies",
 			c01Dirs, vref.Lens16, vref.PairLens, vref.ContentLens, vref.IDs64, vref.ContentLens),
-		"every case = one reference frame (vref.DubboFrame, hessian2 invocation via dubbo-go-hessian2) followed by a second small frame in one read buffer: Decode, consumption == frame length, GetHeader/GetData/SetData(same)/SetRequestId(new)/Encode as xStream.endStream does; bytes must equal the reference encoding with only the id replaced; scribble=true overwrites the whole read buffer after Decode. Requests whose serialization id is not hessian2 are refused by the codec by design (\"not hessian, do not support\"): enumerated, not compared")
+		"every case = one reference frame (vref.DubboFrame, hessian2 invocation via dubbo-go-hessian2) followed by a second small frame in one read buffer: Decode, consumption == frame length, GetHeader/GetData/SetData(same)/SetRequestId(new)/Encode as xStream.endStream does — three times on the same frame object with the same data buffer object (first try + two retries; ids new, old, new), after which the data buffer must still read the same; bytes must equal the reference encoding with only the id replaced; scribble=true overwrites the whole read buffer after Decode. Requests whose serialization id is not hessian2 are refused by the codec by design (\"not hessian, do not support\"): enumerated, not compared")
 }
 
 func TestVerifC01DubboModify(t *testing.T) {
@@ -288,5 +288,5 @@ func TestVerifC01DubboModify(t *testing.T) {
 	a := c01Adapter()
 	complete := vreport.Run(p, c01ModCases, func(p *vreport.Part, c vc01.Case) { vc01.CheckMod(p, a, c) })
 	p.End(complete, "dirs {request (both listener modes), response} x path {1,256} x attachment shapes with distinct keys x argument/payload length {0,1,256,65536 | thorough: all} x 10 modifications",
-		"modification applied through HeaderMap.Set/Del and SetData; Encode must return an error or bytes that the reference parser AND a fresh Decode read back as exactly the modified headers/body with consistent lengths. The header view of a dubbo request is the service metadata (dubbo, service, version, method; plus the attachments on an ingress_dubbo listener)")
+		"modification applied through HeaderMap.Set/Del and SetData; then three upstream attempts (SetData(same buffer object), SetRequestId, Encode): the first Encode must return an error or, like each later one, bytes that the reference parser AND a fresh Decode read back as exactly the modified headers/body with consistent lengths. The header view of a dubbo request is the service metadata (dubbo, service, version, method; plus the attachments on an ingress_dubbo listener)")
 }
